@@ -92,6 +92,11 @@ def run(e: Engine, rep: Report):
              'index / unpack / search it outside an isinstance guard (an '
              'exception there leaves handle() and the connection is lost)')
     v7(e, rep)
+    rep.rule('V8', 'PROXY v2 is big-endian on the wire: every struct format '
+             'of the module that has a multi-byte number in it starts with '
+             '`!` (or `>`) - without it the host\'s byte order decides what '
+             'length is read')
+    v8(e, rep)
     rep.floor('V1', 4, 'recv_into sites')
 
 
@@ -1182,3 +1187,36 @@ def v7(e: Engine, rep: Report):
                       reason='passed on whole')
     if n < 2:
         rep.error('anchor vanished: proxyproto_* log functions (%d < 2)' % n)
+
+
+# ---------------------------------------------------------------------- V8
+def v8(e: Engine, rep: Report):
+    m = e.p.modules.get(MOD)
+    n = 0
+    for x in ast.walk(m.tree):
+        if not isinstance(x, ast.Call):
+            continue
+        fn = ast.unparse(x.func)
+        if not (fn.endswith('Struct') or fn.endswith('unpack') or
+                fn.endswith('unpack_from') or fn.endswith('pack') or
+                fn.endswith('calcsize')):
+            continue
+        if not (x.args and isinstance(x.args[0], ast.Constant) and
+                isinstance(x.args[0].value, (str, bytes))):
+            continue
+        fmt = x.args[0].value
+        fmt = fmt.decode() if isinstance(fmt, bytes) else fmt
+        n += 1
+        rep.evaluations += 1
+        multi = any(ch in 'HhIiLlQqfd' for ch in fmt)
+        rep.check(not multi or fmt[:1] in '!>', 'V8', MOD,
+                  'struct format %r is in network byte order' % fmt,
+                  'the format %r has a multi-byte number but no byte-order '
+                  'mark: on a little-endian host the declared length is '
+                  'read byte-swapped (12 becomes 3072), the parser reads '
+                  'through the payload and well-formed headers end in the '
+                  'invalid address' % fmt,
+                  loc='%s:%d' % (m.relpath, x.lineno),
+                  reason='starts with `!`' if multi else 'single bytes only')
+    if n < 3:
+        rep.error('anchor vanished: struct formats of %s (%d < 3)' % (MOD, n))
